@@ -336,6 +336,45 @@ m("C08", "resume-while-still-over-limit", "impl/impl.go",
   "	if resultErr == nil && result.Accepted {",
   "C04.7", "accepting update resumes although progress is past the new limit")
 
+# ---------------- C06
+GEN = "channels/internal/internalchannel_cbor_gen.go"
+m("C06", "decoder-case-lost", GEN,
+  "		case \"Sent\":\n",
+  "		case \"Sentt\":\n",
+  "C06.1", "Sent is not restored when the store is reopened")
+m("C06", "field-without-regenerating", "channels/internal/internalchannel.go",
+  "	// ResponderPaused indicates whether the responder is in a paused state\n	ResponderPaused bool",
+  "	// ResponderPaused indicates whether the responder is in a paused state\n	ResponderPaused bool\n	// PauseReason says why\n	PauseReason string",
+  "C06.1", "a new record field is silently dropped on reopen")
+m("C06", "decoder-cross-assigns", GEN,
+  "				t.Queued = uint64(extra)",
+  "				t.Sent = uint64(extra)",
+  "C06.1", "Queued is restored into Sent")
+m("C06", "getbyid-without-flush", CH,
+  "	err := c.stateMachines.GetSync(ctx, chid, &internalChannel)",
+  "	err := c.stateMachines.Get(chid).Get(&internalChannel)",
+  "C06.2", "a state returned by a query is not durable yet")
+m("C06", "cleanup-on-restart-just-records", FSM,
+  "fsm.Event(datatransfer.CompleteCleanupOnRestart).FromAny().ToNoChange()",
+  "fsm.Event(datatransfer.CompleteCleanupOnRestart).FromAny().ToJustRecord()",
+  "C06.5", "a channel persisted while cleaning up never finishes cleanup")
+m("C06", "sent-returns-queued", "channels/channel_state.go",
+  "func (c channelState) Sent() uint64 { return c.ic.Sent }",
+  "func (c channelState) Sent() uint64 { return c.ic.Queued }",
+  "C06.3", "Sent() differs from the durable record")
+m("C06", "tuple-order-swapped", "types_cbor_gen.go",
+  "	// t.Initiator (peer.ID) (string)\n	if len(t.Initiator) > 8192 {\n		return xerrors.Errorf(\"Value in field t.Initiator was too long\")\n	}\n\n	if err := cw.WriteMajorTypeHeader(cbg.MajTextString, uint64(len(t.Initiator))); err != nil {\n		return err\n	}\n	if _, err := cw.WriteString(string(t.Initiator)); err != nil {",
+  "	// t.Initiator (peer.ID) (string)\n	if len(t.Responder) > 8192 {\n		return xerrors.Errorf(\"Value in field t.Initiator was too long\")\n	}\n\n	if err := cw.WriteMajorTypeHeader(cbg.MajTextString, uint64(len(t.Responder))); err != nil {\n		return err\n	}\n	if _, err := cw.WriteString(string(t.Responder)); err != nil {",
+  "C06.1", "channel id peers swapped on disk")
+m("C06", "message-set-outside-fsm", CH,
+  "func (c *Channels) fromInternalChannelState(ch internal.ChannelState) datatransfer.ChannelState {\n	return fromInternalChannelState(ch)",
+  "func (c *Channels) fromInternalChannelState(ch internal.ChannelState) datatransfer.ChannelState {\n	if ch.Status == datatransfer.Failed && ch.Message == \"\" {\n		ch.Message = \"failed\"\n	}\n	return fromInternalChannelState(ch)",
+  "C06.4", "a query returns a state that was never persisted")
+m("C06", "restart-cleaning-up-reopens", "impl/impl.go",
+  "	if channels.IsChannelCleaningUp(channel.Status()) {\n		return m.channels.CompleteCleanupOnRestart(channel.ChannelID())\n	}",
+  "	if channels.IsChannelCleaningUp(channel.Status()) {\n		_ = m.channels.CompleteCleanupOnRestart(channel.ChannelID())\n	}",
+  "C06.5", "restart of a cleaning-up channel goes on to re-open it")
+
 by = collections.defaultdict(list)
 for x in M:
     p = x.pop("prop")
